@@ -98,6 +98,12 @@ class BodyPairs(Family):
                     centre = X.add(v, X.scal(lam, X.sub(c1, v)))
                     for s_ in spec['scales']:
                         out.append(X.xform(K2, ID, s_, X.sub(centre, X.scal(F(s_), c2))))
+        elif kind == 'flush':
+            # K2 slid inside the plane of a common face (face contact with many different overlap polygons)
+            for a_ in spec['steps']:
+                for b_ in spec['steps']:
+                    t = X.add(X.scal(a_, spec['u']), X.scal(b_, spec['v']))
+                    out.append(X.xform(K2, ID, 1, t))
         elif kind == 'reorient':
             for (M, s) in spec['maps']:
                 for t in spec['window']:
@@ -227,6 +233,10 @@ class Generic(Family):
 
 def families(tier):
     fams = A.with_int_mode(_families(tier), tier)
+    steps = (F(-1, 2), F(-1, 4), 0, F(1, 4), F(1, 2)) if tier == 'quick' else tuple(F(i, 8) for i in range(-6, 7))
+    for pose in ((A.P0,) if tier == 'quick' else (A.P0, A.P1)):
+        fl = BodyPairs('flush', pose, [('para-A', 'para-B'), ('para-B', 'para-A')], {'steps': steps, 'u': (1, 0, 0), 'v': (0, 4, -3)})
+        fams.append(fl)
     mb = A.QUICK_BODIES if tier == 'quick' else A.QUICK_BODIES + ['square', 'pyramid', 'prism']
     mv = MovedPairs('translate', A.P1, [(x, y) for x in mb for y in mb], {'window': window(-1, 1, 1)[::3] if tier == 'quick' else window(-1, 1, 1)})
     mv.name = 'moved/P1'
